@@ -10,6 +10,8 @@ def run(F, G, tier, seed):
     for tag, cls in (("doc", "UTAP::DocumentBuilder"), ("query", "UTAP::TigaPropertyBuilder")):
         T = stack.Typing(F, G, CG, cls)
         scopes.frames_typing(chk, F, G, T, cls, rid="R-FRAMES[%s]" % tag)
+        if tag == "doc":
+            scopes.lexer_scope(chk, F, G, T)
     scopes.resolve_rules(chk, F)
     scopes.push_parent(chk, F)
     scopes.no_symbol_cache(chk, F)
